@@ -283,6 +283,29 @@ CHECKS['C14']['jobs'].append(dict(name='deep', harness='c14_deep.cc', units=['ut
     thorough=dict(defines=['VERIF_DEPTHS=11'], bounds='the same with M up to 513', limits=dict(time=3000))))
 CHECKS['C14']['level_note'] += ' A second job covers paths of up to 513 components (concrete structure chosen from menus) against the same reference.'
 
+# ---- the same harnesses entered through ninja.cc's real_main (flag parsing, NinjaMain, RebuildManifest loop, RunBuild, real StatusPrinter)
+SCENARIOS.append('regen_manifest')     # 29
+def _via_main(jobs, thorough_only=False):
+    out = []
+    for j in jobs:
+        q = dict(j); q['name'] = j['name'] + '_main'; q['defines'] = list(j['defines']) + ['VIA_MAIN']; q['iquote'] = True; q['support'] = ['getopt_model.c']
+        q['quick'] = dict(j['quick'], bounds=j['quick']['bounds'] + '; entered through real_main(argv)'); q['thorough'] = dict(j['thorough'], bounds=j['thorough']['bounds'] + '; entered through real_main(argv)')
+        if thorough_only: q['thorough_only'] = True
+        out.append(q)
+    return out
+CHECKS['C01']['jobs'] += _via_main(_hist_jobs('CHECK_C01', 2, 3, [29], reach=('built', 'incremental-build', 'manifest-regenerated')) + _hist_jobs('CHECK_C01', 2, 3, [0]))
+
+def _tool_jobs(scenarios, mode=None, reach=(), bounds='', thorough_only=False):
+    jobs = []
+    for i in scenarios:
+        j = dict(name='%s_%s' % (SCENARIOS[i], 'toolclean' if mode else 'tools'), harness='tools.cc', units=PIPELINE, defines=['SCENARIO=%d' % i] + ([mode] if mode else []), iquote=True, support=['getopt_model.c'],
+                 reach=list(reach), limits=dict(max_steps=60000000, time=1500), bounds='scenario %s: %s' % (SCENARIOS[i], bounds))
+        if thorough_only: j['thorough_only'] = True
+        jobs.append(j)
+    return jobs
+_TOOLS_BOUNDS = 'fully built tree, then at most one source edited and at most one built file deleted; one of 17 tool invocations (commands, commands -s, inputs, multi-inputs -d, query, targets all|rule|depth, rules, graph, compdb, compdb -x, compdb-targets, deps, missingdeps, restat, recompact) or -n, on a symbolic target, entered through real_main(argv); then the real build'
+CHECKS['C19']['jobs'] += _tool_jobs([0, 2], reach=('read-only-tool', 'commands', 'inputs', 'compdb', 'dry-run'), bounds=_TOOLS_BOUNDS)
+
 # ---- tiering: which jobs run in the quick tier (measured on 16 cores; the rest is thorough only) -------------------------------------------
 def _single_edit_variant(prop, job_name):
     """for a heavy shape: the quick tier edits at most one source per round, the thorough tier any subset"""
